@@ -37,16 +37,26 @@ func ComputeChecksum(data []byte, csum uint32) uint32 {
 	// handle the last byte specifically by checking against the original
 	// length.
 	length := len(data) - 1
+	// Accumulate in 64 bits: a 32 bit accumulator silently loses carries for
+	// inputs larger than 128KiB (or for a large initial csum).
+	sum := uint64(csum)
 	for i := 0; i < length; i += 2 {
 		// For our test packet, doing this manually is about 25% faster
 		// (740 ns vs. 1000ns) than doing it by calling binary.BigEndian.Uint16.
-		csum += uint32(data[i]) << 8
-		csum += uint32(data[i+1])
+		sum += uint64(data[i]) << 8
+		sum += uint64(data[i+1])
 	}
 	if len(data)%2 == 1 {
-		csum += uint32(data[length]) << 8
+		sum += uint64(data[length]) << 8
 	}
-	return csum
+	// If the sum does not fit in 32 bits, fold the carries back in (end-around
+	// carry, RFC1071). Each step preserves the value modulo 0xffff, which is
+	// all FoldChecksum needs, and leaves a result >= 0x10000 so callers that
+	// subtract a 16 bit stored checksum from it do not underflow.
+	for sum > 0xffffffff {
+		sum = (sum >> 16) + (sum & 0xffff)
+	}
+	return uint32(sum)
 }
 
 // FoldChecksum folds a 32 bit checksum as defined in RFC1071.
